@@ -3,8 +3,37 @@ C02 — property theorems: nobody becomes owner (or gains a capability they are 
 through the bot's commands.
 -/
 import LimnoriaModel.C02.Lemmas
+import LimnoriaModel.Gen.CapSites
 namespace C02
 open Py
+
+/-- **Inventory obligation.**  These are all the places in src/ and plugins/ where a capability set
+is changed (regenerated from the source on every run).  A user's set is changed only by
+`Admin.capability.add/remove`, `Channel.capability.add/remove` (`Cmd.capAdd/capRemove/chanCapAdd/
+chanCapRemove`) and by the reader `IrcUserCreator.capability` (`Cmd.flushReload`); channel sets by
+`Channel.capability.set/unset` (`Cmd.chanCapSet/chanCapUnset`), by `Channel.enable/disable`
+(op-gated; they add/remove `-plugin.command` entries of the *channel* set and are not part of
+`Cmd`) and by the reader; the default set by `Owner.defaultcapability` (`Cmd.defaultCap…`) and the
+registry (`Cmd.configCaps`).  A new site makes this fail. -/
+theorem capSites_table : Gen.CapSites.sites =
+    ["plugins/Admin/plugin.py:Admin.capability.add:addCapability",
+     "plugins/Admin/plugin.py:Admin.capability.remove:removeCapability",
+     "plugins/Channel/plugin.py:Channel.capability.add:addCapability",
+     "plugins/Channel/plugin.py:Channel.capability.remove:removeCapability",
+     "plugins/Channel/plugin.py:Channel.capability.set:addCapability",
+     "plugins/Channel/plugin.py:Channel.capability.unset:removeCapability",
+     "plugins/Channel/plugin.py:Channel.disable:addCapability",
+     "plugins/Channel/plugin.py:Channel.enable:removeCapability",
+     "plugins/Owner/plugin.py:Owner.defaultcapability:add",
+     "plugins/Owner/plugin.py:Owner.defaultcapability:remove",
+     "src/ircdb.py:IrcChannel.__init__:add",
+     "src/ircdb.py:IrcChannel.addCapability:add",
+     "src/ircdb.py:IrcChannel.removeCapability:remove",
+     "src/ircdb.py:IrcChannelCreator.capability:add",
+     "src/ircdb.py:IrcUser.__init__:add",
+     "src/ircdb.py:IrcUser.addCapability:add",
+     "src/ircdb.py:IrcUser.removeCapability:remove",
+     "src/ircdb.py:IrcUserCreator.capability:add"] := by decide
 
 /-- **How capability lists can grow.**  After any command (not a reload) sent from any hostmask,
 with any argument strings, every capability `x` found on an account was already on that account,
